@@ -187,3 +187,74 @@ def h_auto_rect(ctx, it):
     A = CArr(_np.array([[ctx.sym(f'a{i}{j}', 'real') for j in range(2)] for i in range(3)], dtype=object), 'real')
     s = it.call(it.get_function(AD), [A])
     ctx.prove('qr', s.cls.name == 'SolverDenseQR')
+
+
+# ------------------------------------------------------------------------------------------------ conjugate gradients: partial correctness
+IT = 'pymoto.solvers.iterative'
+
+
+def _poly_zero(e):
+    from .C01 import poly_zero
+    return poly_zero(e)
+
+for _maxit, _x0 in ((1, False), (2, False), (2, True), (3, True)):
+    @harness(P, f'CG.solve.partial_correctness[maxit={_maxit},x0={_x0}]', targets=[f'{IT}:CG.solve', f'{IT}:CG.update', f'{IT}:CG.__init__'], timeout=20000)
+    def h_cg(ctx, it, maxit=_maxit, with_x0=_x0):
+        """whatever search directions and step lengths are used (orth and the preconditioner enter only as 'return some array of the right shape';
+        convergence is NOT claimed), on every path through at most `maxit` iterations (explicit residual in iteration 0, recurrence afterwards):
+        the residual vector the code carries IS b - A x for the x it returns, the number it compares with the tolerance IS ||r|| / ||b|| of that
+        vector, and a return without the 'maximum iterations' warning happens only when that number is <= tol - so a silently returned x satisfies
+        ||b - A x|| <= tol ||b||, also when an initial guess is given"""
+        n = 2
+        ctx.safety_on = False
+        ctx.feasible_timeout_ms = 300
+        Ad = _np.array([[ctx.sym(f'a{i}{j}', 'real') for j in range(n)] for i in range(n)], dtype=object)
+        A = CArr(Ad, 'real')
+        bv = [ctx.sym(f'b{i}', 'real') for i in range(n)]
+        b = CArr(_np.array(bv, dtype=object), 'real')
+        x0 = CArr(_np.array([ctx.sym(f'g{i}', 'real') for i in range(n)], dtype=object), 'real') if with_x0 else None
+        tol = ctx.sym('tol', 'real')
+        ctx.assume(tol > 0)
+        ctx.assume(V.z(V.cmp('!=', V.add(V.mul(bv[0], bv[0]), V.mul(bv[1], bv[1])), 0)))          # b != 0 (finding C05-cg-zero-rhs)
+        k_dir = [0]
+
+        def some_directions(itp, args, kw):
+            k_dir[0] += 1
+            return CArr(_np.array([[ctx.fresh(f'p{k_dir[0]}_{i}', 'real')] for i in range(n)], dtype=object), 'real')
+        it.summaries[f'{IT}:orth'] = some_directions
+        watch = it.watches.setdefault(f'{IT}:CG.solve', {})
+        for nm in ('r', 'x', 'tval', 'b'):
+            watch[nm] = []
+        cg = it.call(it.get_function(f'{IT}:CG'), [], dict(tol=tol, maxit=maxit, restart=50, verbosity=0))
+        it.call(it.getattr(cg, 'update'), [A])
+        n_tr = len(it.trace)
+        # the step length alpha = (p^H A p)^-1 p^H r enters only as 'some number': the inverse is replaced by an arbitrary value (the claim holds for
+        # every step length, in particular the one the code computes); this keeps every term polynomial
+        from pvc import nplib as _nl
+        key = ('np.linalg', 'inv')
+        saved = _nl.NP[key]
+        _nl.NP[key] = lambda itp, M, **k: CArr(_np.array([[ctx.fresh('pqinv', 'real')]], dtype=object), 'real')
+        try:
+            ret = it.call(it.getattr(cg, 'solve'), [b], dict(x0=x0) if with_x0 else {})
+        finally:
+            _nl.NP[key] = saved
+        warned = any(t[0] == 'warn' for t in it.trace[n_tr:])
+        ctx.prove('result_shape', isinstance(ret, CArr) and tuple(ret.shape) == (n,))
+        xf, rf, tv = watch['x'][-1], watch['r'][-1], watch['tval'][-1]
+        xe, re_ = [xf.data[i, 0] for i in range(n)], [rf.data[i, 0] for i in range(n)]
+        ctx.prove('returned_vector_is_the_iterate', z3.And(*[V.z(V.cmp('==', ret.data[i], xe[i])) for i in range(n)]))
+        for i in range(n):
+            ax = 0
+            for j in range(n):
+                ax = V.add(ax, V.mul(Ad[i, j], xe[j]))
+            dlt = V.sub(re_[i], V.sub(bv[i], ax))
+            ident = (not V.is_sym(dlt) and dlt == 0) or (V.is_sym(dlt) and _poly_zero(V.zreal(dlt)))      # polynomial identity: normal form first
+            ctx.prove(f'carried_residual_is_b_minus_A_x.row{i}', True if ident else V.cmp('==', re_[i], V.sub(bv[i], ax)))
+        # the tested number: quotient of the Euclidean norms of the carried residual and of b (same library function as the code uses)
+        want_t = V.div(_nl.la_norm(it, CArr(_np.array(re_, dtype=object), 'real')), _nl.la_norm(it, CArr(_np.array(bv, dtype=object), 'real')))
+        ctx.prove('tested_number_is_relative_residual', V.cmp('==', tv.data[0], want_t))
+        if not warned:
+            ctx.prove('silent_return_only_within_tolerance', V.cmp('<=', tv.data[0], tol))
+        if with_x0:
+            ctx.prove('initial_guess_untouched', z3.And(*[V.z(V.cmp('==', x0.data[i], ctx.sym(f'g{i}', 'real'))) for i in range(n)]))
+        ctx.prove('arguments_untouched', z3.And(*[V.z(V.cmp('==', b.data[i], bv[i])) for i in range(n)]))
